@@ -27,7 +27,7 @@ Submit(k) == /\ ts[k] = "none" /\ ~inClear /\ ~inStop
 \* C07: at most once, never after destruction, not after stop() returned; C07: with one worker in submission order
 RunBeginM(k, m) ==
     /\ ts[k] = "submitted" /\ ~stopped
-    /\ (m = 1 => \A j \in Waiting : k <= j)
+    /\ (m = 1 => ((\A j \in Waiting : k <= j) /\ (\A r \in Tasks : ts[r] # "running")))   \* one worker: in order, one task at a time
     /\ ts' = [ts EXCEPT ![k] = "running"]
     /\ UNCHANGED <<inClear, inStop, stopped, live>>
 RunEnd(k) == /\ ts[k] = "running"
